@@ -21,6 +21,10 @@ Alphabet (one *cell* = one way an application fills in a response)
   part B   falsy values: every subset with every member either normal or empty
            ('' / b'' / {} / a stream without chunks)
   part C   stream shapes: 0..3 chunks incl. an empty chunk in the middle
+  part D   assignment order / render_body() between assignments
+  part E   the responder's media cannot be serialized; the error handler registered for that exception
+           fills in the response (every non-stream subset) -- same rules for what is then sent
+  headers  with raw=1 also header values that are not str yet (append_header/set_header of an int)
 Fault points (Chooser deviations, only reached points are expanded):
   stream-raise@k   the stream's k-th read/__next__/__anext__ raises
   send-fail@k      the ASGI server's k-th send() raises
@@ -231,6 +235,7 @@ def sse_event_matches(ev, raw):
 # ---------------------------------------------------------------------------
 class _Holder:
     fill = None
+    recover = None
 
 
 class WsgiSub(falcon.Response):
@@ -245,8 +250,27 @@ class AsgiSub(falcon.asgi.Response):
         return None if d is None else b'<' + d + b'>'
 
 
+class _Unserializable:
+    pass
+
+
+def _wsgi_recover(req, resp, ex, params):
+    # the representation chosen by the responder could not be rendered: this handler composes the response
+    # instead (the cell's filler), to which the same rules apply
+    for _ in _Holder.recover(resp) or ():
+        pass
+
+
+async def _asgi_recover(req, resp, ex, params):
+    for _ in _Holder.recover(resp) or ():
+        pass
+
+
 class _WsgiResource:
     def on_get(self, req, resp):
+        if _Holder.recover is not None:
+            resp.media = {'cannot': _Unserializable()}
+            return
         for _ in _Holder.fill(resp) or ():
             resp.render_body()
 
@@ -255,6 +279,9 @@ class _WsgiResource:
 
 class _AsgiResource:
     async def on_get(self, req, resp):
+        if _Holder.recover is not None:
+            resp.media = {'cannot': _Unserializable()}
+            return
         for _ in _Holder.fill(resp) or ():
             await resp.render_body()
 
@@ -270,9 +297,11 @@ def get_app(stack, klass):
         if stack == 'wsgi':
             app = falcon.App(media_type=DEFAULT_MEDIA_TYPE, response_type=WsgiSub if klass == 'sub' else None)
             app.add_route('/', _WsgiResource())
+            app.add_error_handler(TypeError, _wsgi_recover)
         else:
             app = falcon.asgi.App(media_type=DEFAULT_MEDIA_TYPE, response_type=AsgiSub if klass == 'sub' else None)
             app.add_route('/', _AsgiResource())
+            app.add_error_handler(TypeError, _asgi_recover)
         _APPS[k] = app
     return _APPS[k]
 
@@ -307,6 +336,11 @@ def make_filler(cell, e, stream):
         if cell.raw:
             resp.append_header('Set-Cookie', 'raw%d=1' % cell.seed)
             resp.set_header('X-Extra', 'e%d' % cell.seed)
+            # values that are not str yet (a counter): both calls hand the server native strings
+            resp.append_header('X-Count', 7)
+            resp.append_header('X-Count', 8)
+            resp.set_header('X-Num', 5)
+            resp.append_header('X-Once', 3)
     return fill
 
 
@@ -336,6 +370,7 @@ def execute(cell, e, ch):
         else:
             stream = S.make_stream(cell.kind, cell.stream_chunks(), rec, ch)
     _Holder.fill = make_filler(cell, e, stream)
+    _Holder.recover = _Holder.fill if cell.order == 'recover' else None
     app = get_app(cell.stack, cell.klass)
     if cell.stack == 'wsgi':
         def app2(env, start_response):
@@ -368,7 +403,7 @@ def execute(cell, e, ch):
 
             await app(scope, receive2, send2)
         res = asgi_drv.call(app2, method=cell.method)
-    _Holder.fill = None
+    _Holder.fill = _Holder.recover = None
     if stream is not None and hasattr(stream, 'aclose') and cell.stack == 'asgi':
         # finalize abandoned async generators deterministically (not judged)
         try:
@@ -514,6 +549,10 @@ def judge(cell, e, res, rec):
     xe = res.get_all('x-extra')
     if xe != (['e%d' % cell.seed] if cell.raw else []):
         bad('plain-header', 'X-Extra: expected %r got %r' % (['e%d' % cell.seed] if cell.raw else [], xe))
+    for hn, hv in (('x-count', '7, 8'), ('x-num', '5'), ('x-once', '3')):
+        got_h = res.get_all(hn)
+        if got_h != ([hv] if cell.raw else []):
+            bad('plain-header', '%s: expected %r got %r' % (hn, [hv] if cell.raw else [], got_h))
     names = [n for n, _ in res.header_multi() if n != 'set-cookie']
     if len(names) != len(set(names)):
         bad('header-duplicated', 'plain header repeated: %r' % (names,), name='other')
@@ -690,7 +729,23 @@ def gen_cells(tier, seed):
                                 cells.append(Cell(stack, code, form, method, mask, None, klass=klass, falsy=falsy,
                                                   seed=seed, order=order))
     nd = len(cells) - na - nb - nc
-    return cells, {'matrix': na, 'falsy_values': nb, 'stream_shapes': nc, 'assignment_orders': nd}
+    # part E: the responder's representation cannot be rendered (unserializable media); the error handler for that
+    # exception composes the response -- which is then subject to the same precedence / length rules
+    for mask in masks:
+        if mask & STREAM or not mask:
+            continue
+        for falsy in (0, TEXT, DATA):
+            if falsy & ~mask:
+                continue
+            for klass in ('std', 'sub'):
+                for code, form in ((200, 'int'), (204, 'int'), (404, 'enum')):
+                    for method in ('GET', 'HEAD', 'POST'):
+                        for ck, raw in ((0, 0), (1, 1)):
+                            for stack in ('wsgi', 'asgi'):
+                                cells.append(Cell(stack, code, form, method, mask, None, klass=klass, falsy=falsy,
+                                                  cookies=ck, raw=raw, seed=seed, order='recover'))
+    ne = len(cells) - na - nb - nc - nd
+    return cells, {'matrix': na, 'falsy_values': nb, 'stream_shapes': nc, 'assignment_orders': nd, 'recovered_render_failure': ne}
 
 
 def run_batch(shard, rep):
